@@ -426,15 +426,20 @@ pub fn run(tier: Tier, seed: u64) -> i32 {
             );
         }
     }
-    // All compression levels once each in the thorough tier.
-    if tier == Tier::Thorough {
+    // All compression levels once each (both tiers: the random cases of the quick tier
+    // stay at cheap levels, and what a decoder accepts can depend on the level alone).
+    {
         let comps = crate::gen::all_comps();
         let v = par_map(comps.len(), crate::util::ncpu(), |i| {
             let mut rng = Rng::new(seed).fork(0x01aa + i as u64);
             let mut case = ccommon::gen_case(&mut rng, false, true);
             case.spec.comp = comps[i];
-            case.src_len = rng.urange(3000, 30_000);
-            case.src_class = crate::gen::SrcClass::BlockRepetitive;
+            // A handful of chunks of several KiB of compressible data each: every chunk is
+            // really stored compressed (tiny chunks are stored raw and never reach the
+            // decoder), and the most expensive levels stay cheap.
+            case.spec.cfg = if rng.chance(1, 2) { r1::Cfg::fixed(rng.urange(6000, 12_000)) } else { r1::Cfg { algo: if rng.chance(1, 2) { r1::Algo::RollSum } else { r1::Algo::BuzHash }, window: 16, min: 4096, max: 16_384, bits: 12 } };
+            case.src_len = rng.urange(30_000, 60_000);
+            case.src_class = crate::gen::SrcClass::LowEntropy;
             let v = one_case(&rep, 700_000 + i, &case, &Injection::none(), rng.next_u64() & !32, true);
             (case, v)
         });
